@@ -392,7 +392,7 @@ class Node:
         n = Node(self.ns, self.name, self.attrs, [c.copy() if isinstance(c, Node) else c for c in self.children], self.xsi_type, self.xsi_nil)
         return n
 
-def render_instance(root, nsprefix=None, hint=None):
+def render_instance(root, nsprefix=None, hint=None, extra_ns=None):
     """nsprefix: {ns: prefix}; all bindings are declared on the root.  hint: (kind, value) adds xsi:schemaLocation /
     xsi:noNamespaceSchemaLocation to the root."""
     nsprefix = dict(nsprefix or {})
@@ -415,6 +415,7 @@ def render_instance(root, nsprefix=None, hint=None):
             for ns in sorted(nsprefix):
                 if ns in used or ns == XSI: s += ' xmlns:%s="%s"' % (nsprefix[ns], ns)
             if XSI not in nsprefix: s += ' xmlns:xsi="%s"' % XSI
+            for pr in sorted(extra_ns or {}): s += ' xmlns:%s="%s"' % (pr, extra_ns[pr])
             if hint: s += ' xsi:%s="%s"' % hint
         xp = nsprefix.get(XSI, 'xsi')
         if n.xsi_type is not None: s += ' %s:type="%s"' % (xp, qn(*n.xsi_type))
@@ -528,6 +529,7 @@ class TypeModel:
 class Oracle:
     def __init__(self, schema):
         self.schema = schema; self._tm = {}
+        self.flags = set()      # input classes met during assess() that a caller may want to exclude (known findings)
         self.tns_of_type = {}
         for s in schema.all_schemas():
             for t in s.types: self.tns_of_type[id(t)] = s.tns
@@ -537,6 +539,7 @@ class Oracle:
         return self._tm[k]
     def assess_root(self, node):
         d = self.schema.find_global(node.key())
+        self.flags = set()
         if d is None: return {'root-undeclared'}
         tags = set()
         self.assess(node, d, self._tns_of_decl(d), tags)
@@ -574,16 +577,21 @@ class Oracle:
             v = node.xsi_nil.strip()
             if v not in ('true', 'false', '1', '0'): tags.add('nil-lexical')
             elif not d.nillable: tags.add('nil-notnillable')
+            elif v in ('false', '0'): self.flags.add('nil-false-on-nillable')
             elif v in ('true', '1'):
                 nil = True
                 if node.elems() or node.text() != '': tags.add('nil-content')
+                if not node.elems() and node.text() != '' and node.text().strip(' \t\r\n') == '': self.flags.add('ambiguous:nil-whitespace-only')
                 if d.fixed is not None: tags.add('nil-fixed')
+                elif d.default is not None: self.flags.add('nil-with-default')
         if isinstance(typ, str):
             for (ans, an) in node.attrs: tags.add('attr-on-simple')
             if node.elems(): tags.add('child-in-simple')
             elif not nil: self._simple_content(node, d, typ, tags)
             return
         # ---- complex type: attributes (cvc-complex-type 3, 4)
+        locs = [k[1] for k in node.attrs]
+        if len(set(locs)) != len(locs): self.flags.add('same-local-attrs')
         seen = set()
         for a in typ.attrs:
             k = a.key()
@@ -630,7 +638,9 @@ class Oracle:
                 self.assess(k, cd, self._tns_of_decl(cd) if cd.is_global else tm.tns, tags)
             else:
                 g = self.schema.find_global(k.key())
-                if leaf.pc == 'skip': continue
+                if leaf.pc == 'skip':
+                    if any(x.xsi_nil is not None or x.xsi_type is not None for x in all_nodes(k)): self.flags.add('xsi-in-skip')
+                    continue
                 if g is not None: self.assess(k, g, self._tns_of_decl(g), tags)
                 elif leaf.pc == 'strict': tags.add('strict-undeclared')
     def _simple_content(self, node, d, tname, tags):
@@ -638,7 +648,11 @@ class Oracle:
         if text == '' and not node.children:
             if d.fixed is not None or d.default is not None: return      # value constraint supplies the value
         if text == '' and (d.default is not None or d.fixed is not None): return
-        if not simple_valid(tname, text): tags.add('datatype'); return
+        if text.strip(' \t\r\n') == '' and (d.default is not None or d.fixed is not None): self.flags.add('ambiguous:whitespace-only-with-value-constraint')
+        if not simple_valid(tname, text):
+            tags.add('datatype')
+            if d.fixed is not None: self.flags.add('fixed-elem-invalid-literal')
+            return
         if d.fixed is not None and simple_value(tname, text) != simple_value(tname, d.fixed): tags.add('elem-fixed')
 
 # ==================================================================================================
